@@ -284,7 +284,8 @@ class Ctx:
 
     def oracle_fail(self, what, case, cls=None):
         if len(self.oracle_failures) < 200:
-            self.oracle_failures.append(dict(what=what, case=case, cls=cls))
+            self.oracle_failures.append(dict(what=what, case=case, cls=cls,
+                                             run=dict(seed=self.seed, scale=self.scale, tier=self.tier)))
 
     def corr_fail(self, what, case):
         if len(self.corr_failures) < 200:
